@@ -134,7 +134,7 @@ def build(spec, var, budget=20000):
     use(t, var["family"])
     kw = {}
     host = var["host"]
-    if host == "queued_off" or (host == "queued" and var["family"] == "plain"):
+    if host == "queued_off" or (host == "queued" and var["family"].startswith("plain")):
         kw["instrumented"] = False
     h = charts.new_host(host, **kw)
     if host.startswith("queued"):
@@ -291,6 +291,8 @@ def check_spy(spec, var, run, rings=None):
                         "step %d (%s): spy line %d is %r, the processor's invocations imply %r; spy %r expected %r" % (
                             k, o["kind"], i, got, want, o["spy_rtc"], exp_step)))
             return out
+        if any(r[0] == "act" and r[1] == "clear_spy" for r in o["raw"]):
+            concat = []             # the handler wiped the full spy; the step in progress is still recorded whole
         concat += full_part
         if o.get("cleared_after"):
             concat = []
